@@ -97,3 +97,194 @@ func partialValueAccessorsGuarded(r *fw.Run, rule string, pkgs []string, minSite
 	}
 	r.Expect(rule, "calls of ValueContentBytes / ValueContentString", n, minSites)
 }
+
+// kindRefAgreement: an ast.Value is a pair (Kind, Ref); Ref indexes the per-kind slice of its document (StringValues,
+// IntValues, ListValues, …). Handing v.Ref to an accessor of kind K is meaningful only if v.Kind == K; otherwise the ref
+// addresses an unrelated element of another slice — an index-out-of-range panic when that slice is shorter, somebody else's
+// value otherwise. The documents checked here are schema documents and configuration, which are not validated before
+// use. Every call `doc.<K>Value…(v.Ref)` / index `doc.<K>Values[v.Ref]` is dominated by a test that v.Kind is K.
+func kindRefAgreement(r *fw.Run, rule string, pkgs []string, frozen map[string]string) int {
+	p := r.Prog
+	kinds := map[string]string{ // accessor / slice name prefix → kind constant
+		"StringValue": "ValueKindString", "IntValue": "ValueKindInteger", "FloatValue": "ValueKindFloat", "BooleanValue": "ValueKindBoolean",
+		"EnumValue": "ValueKindEnum", "ListValue": "ValueKindList", "ObjectValue": "ValueKindObject", "VariableValue": "ValueKindVariable",
+	}
+	kindOfName := func(name string) string {
+		for pre, k := range kinds {
+			if len(name) >= len(pre) && name[:len(pre)] == pre {
+				return k
+			}
+		}
+		return ""
+	}
+	n := 0
+	// entry facts of parameters of type ast.Value: kind K holds at entry when every call site seen in the analysed
+	// packages passes a value whose kind is known to be K on the path to the call (filled by a first pass, used by the second)
+	paramKind := map[types.Object]string{}
+	paramSeen := map[types.Object]bool{}
+	for pass := 0; pass < 2; pass++ {
+		final := pass == 1
+		if final {
+			n = 0
+		}
+		for _, pa := range pkgs {
+			for _, fi := range p.Funcs(pa) {
+				info := fi.Info()
+				valueRef := func(e ast.Expr) types.Object { // v.Ref with v an ast.Value → root object of v
+					sel, ok := ast.Unparen(e).(*ast.SelectorExpr)
+					if !ok || sel.Sel.Name != "Ref" {
+						return nil
+					}
+					if tv, okT := info.Types[sel.X]; !okT || !fw.TypeIs(tv.Type, "ast", "Value") {
+						return nil
+					}
+					// struct invariant: VariableDefinition.VariableValue is a variable value by construction (the parser and
+					// every Add/Import function fill it with ValueKindVariable); it is not a value whose kind has to be tested
+					if fv, _ := fw.Field(info, sel.X); fv != nil && fv.Name() == "VariableValue" {
+						return nil
+					}
+					return fw.RootObj(info, sel.X)
+				}
+				kindOf := func(e ast.Expr) types.Object {
+					sel, ok := ast.Unparen(e).(*ast.SelectorExpr)
+					if !ok || sel.Sel.Name != "Kind" {
+						return nil
+					}
+					if tv, okT := info.Types[sel.X]; !okT || !fw.TypeIs(tv.Type, "ast", "Value") {
+						return nil
+					}
+					return fw.RootObj(info, sel.X)
+				}
+				// boolean locals defined as `b := v.Kind == K`
+				boolKind := map[types.Object][2]string{}
+				fw.WalkAll(fi.Decl.Body, func(nd ast.Node) bool {
+					as, ok := nd.(*ast.AssignStmt)
+					if !ok || len(as.Lhs) != 1 || len(as.Rhs) != 1 {
+						return true
+					}
+					be, isB := ast.Unparen(as.Rhs[0]).(*ast.BinaryExpr)
+					id, isID := as.Lhs[0].(*ast.Ident)
+					if !isB || !isID || be.Op.String() != "==" {
+						return true
+					}
+					for _, pr := range [][2]ast.Expr{{be.X, be.Y}, {be.Y, be.X}} {
+						if o := kindOf(pr[0]); o != nil {
+							if c := fw.ConstObj(info, pr[1]); c != nil {
+								if bo := info.Defs[id]; bo != nil {
+									boolKind[bo] = [2]string{o.Name(), c.Name()}
+								}
+							}
+						}
+					}
+					return true
+				})
+				ord := 0
+				in := fw.NewInterp(fi)
+				entry := fw.NewState()
+				sigF := fi.Obj.Type().(*types.Signature)
+				for i := 0; i < sigF.Params().Len(); i++ {
+					if k := paramKind[sigF.Params().At(i)]; k != "" && k != "?" && !fi.Obj.Exported() {
+						entry.Set("kind:" + sigF.Params().At(i).Name() + "=" + k)
+					}
+				}
+				check := func(kind string, arg ast.Expr, at ast.Node, what string, st *fw.State) {
+					o := valueRef(arg)
+					if o == nil || kind == "" || !final {
+						return
+					}
+					n++
+					ord++
+					key := fi.Name() + "/kind-matches-ref:" + what + "#" + itoa(ord)
+					if why, isFrozen := frozen[fi.Name()]; isFrozen {
+						r.Pass(rule, key, p.Pos(at.Pos()), what+" in "+fi.Name()+" — frozen: "+why, false)
+						return
+					}
+					r.Check(st.Must("kind:"+o.Name()+"="+kind), rule, key, p.Pos(at.Pos()), what+"("+o.Name()+".Ref) in "+fi.Name()+" is reached only where "+o.Name()+".Kind is "+kind,
+						"the ref of a value is used as an index into the "+kind+" slice without a test of the value's kind on this path: for a value of another kind (a schema / configuration document is not validated first) it addresses an unrelated element — index out of range (panic) when that slice is shorter, another value's content otherwise")
+				}
+				in.H = fw.Hooks{
+					Cond: func(e ast.Expr, branch bool, st *fw.State) {
+						a := fw.Atom(info, e, branch)
+						if a.Kind == "True" {
+							if id, ok := ast.Unparen(a.X).(*ast.Ident); ok {
+								if bk, isBK := boolKind[info.Uses[id]]; isBK {
+									st.Set("kind:" + bk[0] + "=" + bk[1])
+								}
+							}
+						}
+						if a.Kind != "Eq" {
+							return
+						}
+						for _, pr := range [][2]ast.Expr{{a.X, a.Y}, {a.Y, a.X}} {
+							if o := kindOf(pr[0]); o != nil {
+								if c := fw.ConstObj(info, pr[1]); c != nil {
+									st.Set("kind:" + o.Name() + "=" + c.Name())
+								}
+							}
+						}
+					},
+					Case: func(tag ast.Expr, vals []ast.Expr, match bool, st *fw.State) {
+						o := kindOf(tag)
+						if o == nil || !match || len(vals) != 1 {
+							return
+						}
+						if c := fw.ConstObj(info, vals[0]); c != nil {
+							st.Set("kind:" + o.Name() + "=" + c.Name())
+						}
+					},
+					Node: func(nd ast.Node, st *fw.State) {
+						if !in.Final() {
+							return
+						}
+						// first pass: what is known about ast.Value arguments at the call sites of functions of these packages
+						if c, isCall := nd.(*ast.CallExpr); isCall && !final {
+							if fn := fw.Callee(info, c); fn != nil && p.FuncOf(fn) != nil {
+								sg := fn.Type().(*types.Signature)
+								for i, a := range c.Args {
+									if i >= sg.Params().Len() || !fw.TypeIs(sg.Params().At(i).Type(), "ast", "Value") {
+										continue
+									}
+									po := sg.Params().At(i)
+									known := "?"
+									if ro := fw.RootObj(info, a); ro != nil {
+										for _, k := range kinds {
+											if st.Must("kind:" + ro.Name() + "=" + k) {
+												known = k
+											}
+										}
+									}
+									if !paramSeen[po] {
+										paramSeen[po], paramKind[po] = true, known
+									} else if paramKind[po] != known {
+										paramKind[po] = "?"
+									}
+								}
+							}
+						}
+						switch x := nd.(type) {
+						case *ast.CallExpr:
+							fn := fw.Callee(info, x)
+							if fn == nil || len(x.Args) == 0 {
+								return
+							}
+							sig, _ := fn.Type().(*types.Signature)
+							if sig == nil || sig.Recv() == nil || !fw.TypeIs(sig.Recv().Type(), "ast", "Document") {
+								return
+							}
+							check(kindOfName(fn.Name()), x.Args[0], x, fn.Name(), st)
+						case *ast.IndexExpr:
+							if fv, sel := fw.Field(info, x.X); fv != nil {
+								if tv, okT := info.Types[sel.X]; okT && fw.TypeIs(tv.Type, "ast", "Document") {
+									check(kindOfName(fv.Name()), x.Index, x, fv.Name(), st)
+								}
+							}
+						}
+					},
+				}
+				in.Run(entry)
+			}
+		}
+	}
+	// exported functions can be called from outside the analysed packages: their entry facts are not trusted
+	return n
+}
